@@ -494,16 +494,18 @@ class Function:
         self._groups = groups
         return groups
 
-    def facts_at_block(self, bid, normal_exit=False):
+    def facts_at_block(self, bid, normal_exit=False, assume=()):
         """branch outcomes that hold on every path from ENTRY to block `bid`
-        (normal_exit=True: to EXIT through a normally completing block)"""
-        key = (bid, normal_exit)
+        (normal_exit=True: to EXIT through a normally completing block; assume: CFG edges taken not to exist, i.e. facts of the
+        paths that avoid them - used for case analysis over an if/else)"""
+        key = (bid, normal_exit, tuple(assume))
         if key in self._facts_cache:
             return self._facts_cache[key]
         facts = []
         tb = self.throw_blocks() if normal_exit else ()
         nodes = self.nodes
-        r0 = self.reachable(self.entry, removed_blocks=tb)
+        assume = list(assume)
+        r0 = self.reachable(self.entry, removed_blocks=tb, removed_edges=assume)
         if bid not in r0:
             self._facts_cache[key] = facts
             return facts
@@ -511,7 +513,7 @@ class Function:
             if s is None:
                 continue
             # the fact (cn == pol) holds at bid iff every path to bid crosses the edge (b, si)
-            r = self.reachable(self.entry, removed_edges=[(b.id, si)], removed_blocks=tb)
+            r = self.reachable(self.entry, removed_edges=[(b.id, si)] + assume, removed_blocks=tb)
             if bid in r:
                 continue
             other = b.succs[1 - si]
@@ -522,7 +524,7 @@ class Function:
             if not self._killed(fact, bid, None, tb):
                 facts.append(fact)
         for (edges, cn, pol, others, stmt) in self.compound_groups():
-            r = self.reachable(self.entry, removed_edges=edges, removed_blocks=tb)
+            r = self.reachable(self.entry, removed_edges=list(edges) + assume, removed_blocks=tb)
             if bid in r:
                 continue
             rej = all(o is not None and not self.normal_exit_reachable_from(o) for o in others)
